@@ -85,7 +85,8 @@ def run(ctx):
             reps[cfg] = rep
             st = reps[cfg]["stat"]
             ctx.cov["evaluations"] += int(st.get("ops", 0))
-            ctx.cov["distinct_nontrivial"] += int(st.get("statechanges", 0))
+            if cfg == "u":
+                ctx.cov["distinct_nontrivial"] += len(set(l for l in ops if l.startswith("p ") or l.startswith("s ")))
             ctx.cov["streams"].append({"name": sname, "cfg": cfg, "ops": int(st.get("ops", 0)), "div": int(st.get("div", 0)), "mon": int(st.get("mon", 0)),
                                        "harness_exit": r.harness_rc})
             if r.harness_rc != 0 and cfg != "u":
